@@ -18,6 +18,7 @@ import (
 type Domain struct {
 	AllBound bool // every Get succeeds (the quantifier of C02 / C03)
 	AllAvail bool // every variable is cached
+	NoNil    bool // fetched values and custom-operator results are not nil (C05's "never nil" clause)
 }
 
 func (d *Domain) Describe() []string {
@@ -32,6 +33,9 @@ func (d *Domain) Describe() []string {
 	}
 	if d.AllAvail {
 		out = append(out, "every variable is available (Cached is true)")
+	}
+	if d.NoNil {
+		out = append(out, "fetched values and custom-operator results are not nil (only for C05's never-nil clause)")
 	}
 	return out
 }
@@ -86,6 +90,10 @@ func (d *Domain) Implied(atom *T, r *Path) (bool, bool) {
 			switch ctor {
 			case "VDNE", "VIntList", "VStrList", "VObj":
 				return false, true
+			case "VNil":
+				if d.NoNil {
+					return false, true
+				}
 			case "VBool":
 				if boolTyped(x) {
 					if ok, known := r.Known(Is("ENil", errSymFor(x))); known && ok {
@@ -124,6 +132,9 @@ func (d *Domain) Assumptions(ts ...*T) []*T {
 			add(Not(Is("VStrList", x)))
 			add(Not(Is("VObj", x)))
 			add(App("inrange64", SBool, x))
+			if d.NoNil {
+				add(Not(Is("VNil", x)))
+			}
 			if boolTyped(x) {
 				add(Or(Not(Is("ENil", errSymFor(x))), Is("VBool", x)))
 			}
